@@ -188,6 +188,21 @@ CLAIMED = {
         "note": TRUSTED,
         "technique": "static analysis: operand provenance (receiver/argument order of Option::or, merge, fold), boolean store tables enumerated over finite valuations, placement / adaptor-chain rules, sibling cross-check over MIR",
     },
+    "C14": {
+        "text": "Static provenance / placement rules over the diagnostic plumbing: ErrorContext.path is the path parameter of its only "
+                "constructor, whose only caller passes the path and context the loader's callback received for that entry (traced "
+                "through the nested closure captures); load errors carry the canonicalised path of the file being read; line_start, "
+                "text and parsed_span of a context come from one ParsedContext, which is only built by the parse adaptor from the "
+                "whole-file text and the entry's with_span range; compute_line_start passes (initial, span.start); ParseError::new "
+                "measures the error offset, rewinds to the entry checkpoint before anything else reads the stream, counts lines in "
+                "the un-sliced text at the rewound position; compute_line_number consumes its offset with a byte-indexed prefix "
+                "operation and returns 1 + the count of b'\\n' in the prefix half; BookKeepError spans are span() of parts of the "
+                "function's own posting / exchange; resolve clips with max/min minus the entry start; TrackedSpan is minted only "
+                "from with_span ranges.  Counting newlines for arbitrary content is not decided.",
+        "design_ref": "DESIGN.md §4 C14",
+        "note": TRUSTED,
+        "technique": "static analysis: operand provenance incl. closure-capture tracing, who-may-construct, dominance (rewind before read), arithmetic expression trees over MIR",
+    },
 }
 
 _WIP = "check not built yet in this session (design: DESIGN.md §4); not claimed until it is"
